@@ -46,7 +46,7 @@ def spellings(sb):
 def tasks(tier, seed):
     n = 32 if tier == 'quick' else 128
     return ([{'tier': tier, 'kind': 'args', 'slice': [i, n]} for i in range(n)] +
-            [{'tier': tier, 'kind': 'paths'}, {'tier': tier, 'kind': 'names'}])
+            [{'tier': tier, 'kind': 'paths'}, {'tier': tier, 'kind': 'names'}, {'tier': tier, 'kind': 'mixed'}])
 
 
 class Acc:
@@ -195,6 +195,41 @@ def _work(ctx, task, acc):
                     acc.bad('identity.path_next_build', {'equal': equal, 'invoked': bool(inv2)}, s1=repr(s1), s2=repr(s2))
                 acc.outcomes.add(('path', equal, r, bool(inv2)))
         acc.samples.append({'spellings': [repr(s) for s in allsp]})
+    elif task['kind'] == 'mixed':
+        # the boundary between positional and keyword arguments is part of the identity
+        V = values('quick')[:25]
+        shapes = [lambda v: (('k', v), {}), lambda v: ((), {'k': v}), lambda v: (('k',), {'v': v}), lambda v: ((['k', v],), {}),
+                  lambda v: (({'k': v},), {}), lambda v: ((v, 'k'), {}), lambda v: ((v,), {'k': 'k'})]
+        for v in V:
+            for i1, s1 in enumerate(shapes):
+                for i2, s2 in enumerate(shapes):
+                    a1, k1 = s1(v)
+                    a2, k2 = s2(v)
+                    equal = i1 == i2
+                    for kind in ('sb', 'bf'):
+                        sb.reset()
+                        inv1, inv2 = [], []
+                        build(ctx, lambda b: call(b, kind, sb, 'f', inv1, a1, k1))
+                        build(ctx, lambda b: call(b, kind, sb, 'f', inv2, a2, k2))
+                        acc.counters['builds'] += 2
+                        acc.counters['mixed_pairs'] += 1
+                        if bool(inv2) != (not equal):
+                            acc.bad('identity.mixed_next_build', {'kind': kind, 'equal': equal, 'invoked': bool(inv2)},
+                                    first=trepr([list(a1), k1]), second=trepr([list(a2), k2]))
+                    if not equal:
+                        sb.reset()
+                        inv = []
+
+                        def root(b):
+                            call(b, 'sb', sb, 'f', inv, a1, k1)
+                            call(b, 'sb', sb, 'f', inv, a2, k2)
+                            return 'both accepted'
+                        try:
+                            build(ctx, root)
+                        except BuildFailed as e:
+                            acc.bad('identity.mixed_same_build', {}, first=trepr([list(a1), k1]), second=trepr([list(a2), k2]), error=str(e)[:80])
+                        acc.counters['builds'] += 1
+        acc.samples.append({'mixed_shapes': 7, 'values': len(V)})
     else:
         # function names: different names never share an entry
         for kind in ('sb', 'bf'):
@@ -239,6 +274,7 @@ def coverage(res, tier):
         'ordered_pairs_same_build': c.get('pairs_same_build', 0),
         'spelling_pairs': c.get('spelling_pairs', 0),
         'name_pairs': c.get('name_pairs', 0),
+        'positional_keyword_shape_pairs': c.get('mixed_pairs', 0),
         'distinct_outcomes': len(res.outcomes),
         'exhaustive': True,
         'rule': 'states = argument values + path spellings; transitions = real builds executed. Every ordered pair '
